@@ -34,6 +34,20 @@ ASSUMPTIONS = ["a window whose weighted target sum (calibration) is 0 is outside
                "empty tensor there while the windowed class divides by eps — division by zero is undocumented for both",
                "merge_state sources are distinct objects (no self-merge) and passed as a list"]
 
+# (T) harness/translators/winplumb.py → lean/TE/Gen/WinPlumbing.lean; theorems in lean/TE/Props/C13_Plumb.lean.
+from ..translators import winplumb as winplumb_tr  # noqa: E402
+
+TRUSTED_EXTRA = ["harness/translators/winplumb.py (symbolic execution of the AST of __init__ / update / compute / reset / merge_state of the "
+                 "windowed classes: subscript assignments, the cursor attribute, index expressions over cursor / counter / window size, the "
+                 "`for metric in metrics` loops as step functions) producing lean/TE/Gen/WinPlumbing.lean; its facts are cross-checked on "
+                 "instrumented real instances on every run (winplumb:*-crosscheck counters)"]
+_WIN_ROWS: list = []
+
+
+def translate(rep: Report):
+    _WIN_ROWS[:] = winplumb_tr.generate(rep)
+
+
 CLASSES = ["WindowedClickThroughRate", "WindowedWeightedCalibration", "WindowedBinaryNormalizedEntropy", "WindowedMeanSquaredError"]
 AUROC = "WindowedBinaryAUROC"
 NS = [1, 2, 3, 5]
@@ -631,6 +645,8 @@ def run(rep: Report):
     progs: list = []
     thorough = rep.tier == "thorough"
     reps = 6 if thorough else 1
+    # (0) the extracted ring-buffer plumbing (TE/Gen/WinPlumbing.lean) against instrumented real instances
+    winplumb_tr.crosscheck(rep, _WIN_ROWS or winplumb_tr.facts(), Rng(rep.seed * 31 + 5))
     # (1) update-granular streams
     for cls in CLASSES:
         for cfg in update_configs(cls):
